@@ -250,6 +250,8 @@ def explore_case(prop, harness_make, case, kf, *, max_paths=4096, witness_every=
             ENGINE.symbolic = False
         if status == "ok":
             try:
+                if ENGINE.check() != z3.sat:
+                    raise Inconclusive("path condition not satisfiable at path end (engine defect)")
                 _discharge(prop, ctx, case, kf, res)
                 res["decided_paths"] += 1
                 if ctx.checks:
